@@ -6,7 +6,7 @@ import torch
 from hypothesis import strategies as st
 
 from checks.c03_dataset_wrappers import ClassRoot
-from vlib.core import Case, Facet, Refused, Violation
+from vlib.core import Case, Facet, Refused, Violation, guarded
 
 # thorough-tier budgets of every facet are multiplied by this factor (sized for ~5-8 min on 16 cores)
 THOROUGH_SCALE = 8
@@ -33,11 +33,13 @@ class PlainDS(torch.utils.data.Dataset):
         return i
 
 
-def _streams(make, W, epoch):
+def _streams(make, W, epoch, via=None):
     out = []
     for r in range(W):
         s = make(r, W)
         if hasattr(s, "set_epoch"):
+            if via is not None:
+                s.set_epoch(via)  # another epoch first: going back must reproduce the draw of `epoch`
             s.set_epoch(epoch)
         st_ = list(s)
         if len(st_) != len(s):
@@ -100,9 +102,12 @@ def check_distributed(spec):
     G2, _ = _streams(make, W, spec["epoch"])
     if G2 != G:
         raise Violation("same-seed-epoch-not-reproducible", "")
+    G3, _ = _streams(make, W, spec["epoch"], via=spec["epoch"] + 1 + spec["seed"] % 3)
+    if G3 != G:
+        raise Violation("set_epoch-back-does-not-reproduce", f"set_epoch({spec['epoch']}) after another epoch gives a different draw")
     if shuffle and N >= 8:
         others = [_streams(make, W, spec["epoch"] + k)[0] for k in (1, 2)]
-        if all(o == G for o in others):
+        if all(o == G for o in others) or (len(set(D)) >= 12 and others[0] == G):
             raise Violation("set_epoch-does-not-change-the-draw", f"epochs {spec['epoch']}..+2 give {G}")
     if r > 1:
         _runs(D, r, "distributed")
@@ -163,10 +168,14 @@ def check_prefix_kind(spec):
     G2, _ = _streams(make, W, spec["epoch"])
     if G2 != G:
         raise Violation(f"same-seed-epoch-not-reproducible:{kind}", "")
+    G3, _ = _streams(make, W, spec["epoch"], via=spec["epoch"] + 1 + spec["seed"] % 3)
+    if G3 != G:
+        raise Violation(f"set_epoch-back-does-not-reproduce:{kind}", f"set_epoch({spec['epoch']}) after another epoch gives a different draw")
     if (kind == "weighted" or spec["shuffle"]) and len(D) >= 8 and len(set(D)) >= 8:
         others = [_streams(make, W, spec["epoch"] + k)[0] for k in (1, 2)]
-        if all(o == G for o in others):
-            raise Violation(f"set_epoch-does-not-change-the-draw:{kind}", "")
+        # P[two honest shuffles of >= 12 distinct elements coincide] <= 1/12! ~ 2e-9: the pairwise test is safe there
+        if all(o == G for o in others) or (len(set(D)) >= 12 and others[0] == G):
+            raise Violation(f"set_epoch-does-not-change-the-draw:{kind}", f"epoch {spec['epoch']} and {spec['epoch'] + 1}")
     return Case(W >= 3 or len(D) % W != 0 or len(D) < W, [kind, "W=%d" % W], W + 3)
 
 
@@ -189,24 +198,24 @@ def check_random_sampler(spec):
     return Case(r > 1, ["repeats=%d" % r], 2)
 
 
-DIST = st.fixed_dictionaries({"N": st.integers(1, 40), "W": st.sampled_from([1, 2, 3, 3, 4, 5, 6, 7, 8]), "seed": st.integers(0, 2 ** 20), "epoch": st.integers(0, 50),
+DIST = st.fixed_dictionaries({"N": st.integers(1, 40), "W": st.sampled_from([1, 2, 3, 3, 4, 5, 6, 7, 8]), "seed": st.integers(0, 2 ** 20), "epoch": st.sampled_from([0, 0, 1, 2, 7, 50]),
                               "repeats": st.sampled_from([1, 1, 2, 3, 4]), "shuffle": st.sampled_from([True, True, False]),
                               "drop_last": st.booleans()})
 BAL = st.fixed_dictionaries({"kind": st.just("balanced"), "counts": st.lists(st.integers(1, 7), min_size=2, max_size=6),
                              "key": st.integers(0, 999), "bulk": st.sampled_from(["list", "numpy", "tensor"]),
                              "spc": st.one_of(st.none(), st.integers(1, 20)), "shuffle": st.booleans(), "W": st.sampled_from([1, 2, 3, 3, 4, 5, 6, 7, 8]),
-                             "seed": st.integers(0, 2 ** 20), "epoch": st.integers(0, 50)})
+                             "seed": st.integers(0, 2 ** 20), "epoch": st.sampled_from([0, 0, 1, 2, 7, 50])})
 WEI = st.fixed_dictionaries({"kind": st.just("weighted"), "n": st.integers(1, 40), "key": st.integers(0, 999),
                              "size": st.one_of(st.none(), st.integers(1, 40)), "W": st.sampled_from([1, 2, 3, 3, 4, 5, 6, 7, 8]), "seed": st.integers(0, 2 ** 20),
-                             "epoch": st.integers(0, 50)})
+                             "epoch": st.sampled_from([0, 0, 1, 2, 7, 50])})
 RAND = st.fixed_dictionaries({"N": st.integers(1, 40), "repeats": st.integers(1, 4), "seed": st.integers(0, 2 ** 20)})
 
 FACETS = [
-    Facet("distributed", check_distributed, strategy=lambda tier: DIST, budget={"quick": 2500, "thorough": 40000},
+    Facet("distributed", guarded("distributed", check_distributed), strategy=lambda tier: DIST, budget={"quick": 2500, "thorough": 40000},
           shards={"quick": 4, "thorough": 12}, min_nontrivial={"quick": 500, "thorough": 5000}),
-    Facet("class-balanced", check_prefix_kind, strategy=lambda tier: BAL, budget={"quick": 1000, "thorough": 12000},
+    Facet("class-balanced", guarded("class-balanced", check_prefix_kind), strategy=lambda tier: BAL, budget={"quick": 1000, "thorough": 12000},
           shards={"quick": 2, "thorough": 6}, min_nontrivial={"quick": 200, "thorough": 2000}),
-    Facet("weighted", check_prefix_kind, strategy=lambda tier: WEI, budget={"quick": 1000, "thorough": 12000},
+    Facet("weighted", guarded("weighted", check_prefix_kind), strategy=lambda tier: WEI, budget={"quick": 1000, "thorough": 12000},
           shards={"quick": 2, "thorough": 6}, min_nontrivial={"quick": 200, "thorough": 2000}),
     Facet("random-sampler-repeats", check_random_sampler, strategy=lambda tier: RAND, budget={"quick": 400, "thorough": 4000},
           shards={"quick": 1, "thorough": 2}, min_nontrivial={"quick": 100, "thorough": 1000}),
